@@ -29,7 +29,10 @@
 (*   pop[p]          index into cand of particle p (0 = not a candidate)   *)
 (*   ds, thr_rep     the population's discrepancies / threshold            *)
 (*   ws, pp, lw, lp, lq, cov, wvar  as in Smc_Trace (scipy oracle fields)  *)
-(*   end event: nsim, npops, ndf (length of the node's function list)      *)
+(*   end event: nsim, npops, ndf (length of the node's function list);     *)
+(*   T.rounds = populations requested over ALL sample() calls of the trace *)
+(*   (continued sampling: a second call on the same sampler); cont = 1 on  *)
+(*   an end event whose exception was raised by a continuing call          *)
 (*                                                                         *)
 (* kind "AT": T.n, T.bs, T.max_iter, T.qthr, T.q0a / T.q0A (dyadic         *)
 (*   initial quantile).  pop event: nb, nsim, rowd (discrepancies of ALL   *)
@@ -107,7 +110,7 @@ DriftAD(e, i) ==
      THEN "M:surplus-acceptances-dropped-by-distance-in-force" ELSE ""
 
 JudgeADEnd(e) ==
-  IF e.raised # "" THEN "P:sampler-returns"
+  IF e.raised # "" THEN (IF e.cont = 1 THEN "P:continued-sampling-returns" ELSE "P:sampler-returns")
   ELSE IF e.nsim # sumSim THEN "P:n_sim-is-total-over-all-rounds"
   ELSE IF e.npops # T.rounds \/ Len(hist) # T.rounds THEN "P:one-population-per-round"
   ELSE IF e.ndf # T.rounds + 1 THEN "P:one-distance-function-per-finished-round"
@@ -156,7 +159,7 @@ JudgeAT(e, i) ==
 
 JudgeATEnd(e) ==
   LET P == Len(hist) IN
-  IF e.raised # "" THEN "P:sampler-returns"
+  IF e.raised # "" THEN (IF e.cont = 1 THEN "P:continued-sampling-returns" ELSE "P:sampler-returns")
   ELSE IF e.nsim # sumSim THEN "P:n_sim-is-total-over-all-rounds"
   ELSE IF e.npops # P \/ P < 1 THEN "P:every-round-returns-its-population"
   ELSE IF P > T.max_iter THEN "P:at-most-max_iter-populations"
